@@ -2,7 +2,7 @@
    plain text and line breaks, the children that _TextParser builds flatten to the payload's characters,
    each with exactly the styles of the tags that enclose it. *)
 From TT Require Import Base.Prelude Base.SrtTypes Gen.SrtTables Model.SrtReader Spec.SrtCueSpec
-  Proofs.C10.Lines Proofs.C10.Text Proofs.C10.Roundtrip Proofs.C10.NoFinalEol Proofs.C10.Font.
+  Proofs.C10.Lines Proofs.C10.Text Proofs.C10.Roundtrip Proofs.C10.NoFinalEol Proofs.C10.Font Proofs.C10.Refs.
 Local Open Scope Z_scope.
 
 (* ------------------------------------------------------------------ induction over nodes *)
@@ -91,22 +91,21 @@ Qed.
 
 (* pending data flushed into the tree *)
 Definition pview (pend : text) (fs : frames) (pk : list elem) : list item :=
-  view fs pk ++ items_of_text (style_of fs) (rev pend).
+  view fs pk ++ items_of_text (style_of fs) (unescape (rev pend)).
 
 Lemma items_of_text_app s a b : items_of_text s (a ++ b) = items_of_text s a ++ items_of_text s b.
 Proof. unfold items_of_text. apply flat_map_app. Qed.
 
 (* handling the tokens of flushed pending data *)
-Lemma handle_flush pend fs pk ts : lacks 38 pend ->
+Lemma handle_flush pend fs pk ts :
   exists fs' pk',
     handle true (flush pend ++ ts) (CP fs pk) = handle true ts (CP fs' pk') /\
     view fs' pk' = pview pend fs pk /\ map fst fs' = map fst fs.
 Proof.
-  intro A. unfold flush, pview. destruct pend as [|c pend].
-  - exists fs, pk. cbn [app rev items_of_text flat_map]. rewrite app_nil_r. auto.
-  - cbn [app handle]. rewrite unescape_id.
-    2:{ unfold lacks in *. rewrite forallb_forall in *. intros x I. apply A. apply in_rev. exact I. }
-    cbn [handle_data]. pose proof (view_push fs pk (data_kids true (split_lf (rev (c :: pend))))) as V.
+  unfold flush, pview. destruct pend as [|c pend].
+  - exists fs, pk. cbn [app rev]. change (unescape []) with (@nil Z). cbn [items_of_text flat_map]. rewrite app_nil_r. auto.
+  - cbn [app handle].
+    cbn [handle_data]. pose proof (view_push fs pk (data_kids true (split_lf (unescape (rev (c :: pend)))))) as V.
     destruct (push_kids fs pk _) as [fs' pk'|]; [|contradiction].
     exists fs', pk'. destruct V as (V1 & V2). rewrite V1. rewrite flat_data_kids. cbn [app]. auto.
 Qed.
@@ -142,29 +141,51 @@ Proof. destruct outer as [b i u c], k; unfold inherit, with_tag; cbn [st_b st_i 
 (* ------------------------------------------------------------------ the forest lemma *)
 Definition node_goal (n : node) : Prop :=
   angle_node n = true -> wf_node n = true ->
-  forall pend fs pk X, lacks 38 pend ->
+  forall pend fs pk X, closed (rev pend) ->
   exists pend' fs' pk',
     handle true (tok O pend (print_node n ++ X)) (CP fs pk) = handle true (tok O pend' X) (CP fs' pk') /\
-    lacks 38 pend' /\ map fst fs' = map fst fs /\
+    closed (rev pend') /\ map fst fs' = map fst fs /\
     pview pend' fs' pk' = pview pend fs pk ++ items (style_of fs) n.
 Definition nodes_goal (l : list node) : Prop :=
   forallb angle_node l = true -> forallb wf_node l = true ->
-  forall pend fs pk X, lacks 38 pend ->
+  forall pend fs pk X, closed (rev pend) ->
   exists pend' fs' pk',
     handle true (tok O pend (print_nodes l ++ X)) (CP fs pk) = handle true (tok O pend' X) (CP fs' pk') /\
-    lacks 38 pend' /\ map fst fs' = map fst fs /\
+    closed (rev pend') /\ map fst fs' = map fst fs /\
     pview pend' fs' pk' = pview pend fs pk ++ items_list (style_of fs) l.
 
-Lemma char_step c pend fs pk X : plain_char c = true \/ c = 10 -> lacks 38 pend ->
-  tok O pend (c :: X) = tok O (c :: pend) X /\ lacks 38 (c :: pend) /\
+Lemma char_step c pend fs pk X : plain_char c = true \/ c = 10 -> closed (rev pend) ->
+  tok O pend (c :: X) = tok O (c :: pend) X /\ closed (rev (c :: pend)) /\
   pview (c :: pend) fs pk = pview pend fs pk ++ item_of_char (style_of fs) c.
 Proof.
   intros Hc A. assert (c <> 60 /\ c <> 38) as [N1 N2] by (unfold plain_char in Hc; lia).
+  destruct (closed_snoc (rev pend) c A N2) as [A' E].
   split; [|split].
   - cbn [tok]. replace (c =? 60) with false by lia. reflexivity.
-  - unfold lacks in *. cbn [forallb]. rewrite A. replace (c =? 38) with false by lia. reflexivity.
-  - unfold pview. cbn [rev]. rewrite items_of_text_app. rewrite app_assoc. f_equal.
+  - exact A'.
+  - unfold pview. cbn [rev]. rewrite E. rewrite items_of_text_app. rewrite app_assoc. f_equal.
     unfold items_of_text. cbn [flat_map]. rewrite app_nil_r. reflexivity.
+Qed.
+
+Lemma tok_plain a : forall pend X, lacks 60 a -> tok O pend (a ++ X) = tok O (rev a ++ pend) X.
+Proof.
+  unfold lacks. induction a as [|c a IH]; intros pend X H; [reflexivity|].
+  cbn [forallb] in H. apply andb_true_iff in H as [H1 H2]. cbn [app tok].
+  replace (c =? 60) with false by lia. rewrite IH by auto. cbn [rev]. rewrite <- app_assoc. reflexivity.
+Qed.
+
+Lemma ref_step r pend fs pk X : wf_cref r = true -> closed (rev pend) ->
+  tok O pend (print_cref r ++ X) = tok O (rev (print_cref r) ++ pend) X /\ closed (rev (rev (print_cref r) ++ pend)) /\
+  pview (rev (print_cref r) ++ pend) fs pk = pview pend fs pk ++ [Ch (cref_char r) (style_of fs)].
+Proof.
+  intros W A. destruct (cref_chars r W) as (L60 & _).
+  assert (E : unescape (rev pend ++ print_cref r) = unescape (rev pend) ++ [cref_char r]).
+  { rewrite A. f_equal. rewrite <- (app_nil_r (print_cref r)). rewrite unescape_ref by auto. reflexivity. }
+  split; [apply tok_plain; auto|]. rewrite rev_app_distr, rev_involutive. split.
+  - intro x. rewrite <- app_assoc. rewrite A. rewrite unescape_ref by auto. rewrite E. rewrite <- app_assoc. reflexivity.
+  - unfold pview. rewrite rev_app_distr, rev_involutive. rewrite E. rewrite items_of_text_app. rewrite app_assoc. f_equal.
+    unfold items_of_text. cbn [flat_map]. rewrite app_nil_r. unfold item_of_char.
+    pose proof (cref_char_not_lf r W). replace (cref_char r =? 10) with false by lia. reflexivity.
 Qed.
 
 Lemma forest_lemma : forall l, nodes_goal l.
@@ -174,7 +195,9 @@ Proof.
     destruct (char_step c pend fs pk X (or_introl W) A) as (T & L & V).
     exists (c :: pend), fs, pk. cbn [print_node app]. rewrite T. repeat split; auto.
     rewrite V. cbn [items]. unfold item_of_char. replace (c =? 10) with false by (unfold plain_char in W; lia). reflexivity.
-  - (* NRef *) intros r H. discriminate.
+  - (* NRef *) intros r _ W pend fs pk X A. cbn [wf_node] in W.
+    destruct (ref_step r pend fs pk X W A) as (T & L & V).
+    exists (rev (print_cref r) ++ pend), fs, pk. cbn [print_node]. rewrite T. repeat split; auto.
   - (* NBreak *) intros _ _ pend fs pk X A.
     destruct (char_step 10 pend fs pk X (or_intror eq_refl) A) as (T & L & V).
     exists (10 :: pend), fs, pk. cbn [print_node app]. rewrite T. repeat split; auto.
@@ -182,14 +205,14 @@ Proof.
     rewrite angle_tag in Ha. apply andb_true_iff in Ha as [Hs Hb]. apply negb_true_iff in Hs.
     rewrite wf_tag in Hw. rewrite print_tag. repeat rewrite <- app_assoc.
     rewrite tok_open by auto.
-    destruct (handle_flush pend fs pk (TStart (low_name k sy) [] :: tok O [] (print_nodes body ++ close_tag k sy ++ X)) A)
+    destruct (handle_flush pend fs pk (TStart (low_name k sy) [] :: tok O [] (print_nodes body ++ close_tag k sy ++ X)))
       as (fs1 & pk1 & E1 & V1 & S1).
     rewrite E1. cbn [handle handle_start]. rewrite tag_style_spec by auto.
     set (stk := match k with KB => mkSt true false false None | KI => mkSt false true false None | KU => mkSt false false true None end).
-    destruct (IH Hb Hw [] ((stk, []) :: fs1) pk1 (close_tag k sy ++ X) eq_refl)
+    destruct (IH Hb Hw [] ((stk, []) :: fs1) pk1 (close_tag k sy ++ X) closed_nil)
       as (pend2 & fs2 & pk2 & E2 & A2 & S2 & V2).
     rewrite E2. rewrite tok_close by auto.
-    destruct (handle_flush pend2 fs2 pk2 (TEnd :: tok O [] X) A2) as (fs3 & pk3 & E3 & V3 & S3).
+    destruct (handle_flush pend2 fs2 pk2 (TEnd :: tok O [] X)) as (fs3 & pk3 & E3 & V3 & S3).
     rewrite E3. cbn [handle].
     rewrite S2 in S3. cbn [map fst] in S3.
     destruct fs3 as [|[s3 k3] fs3']; [discriminate|]. cbn [map fst] in S3. injection S3 as S3a S3b. subst s3.
@@ -197,27 +220,27 @@ Proof.
     pose proof (view_push fs3' pk3 [ESpan stk k3]) as VP.
     destruct (push_kids fs3' pk3 [ESpan stk k3]) as [fs4 pk4|]; [|contradiction].
     destruct VP as (V4 & S4).
-    exists [], fs4, pk4. split; [reflexivity|]. split; [reflexivity|].
+    exists [], fs4, pk4. split; [reflexivity|]. split; [exact closed_nil|].
     split; [congruence|].
-    unfold pview at 1. cbn [rev items_of_text flat_map]. rewrite app_nil_r.
+    unfold pview at 1. cbn [rev]. change (unescape []) with (@nil Z). cbn [items_of_text flat_map]. rewrite app_nil_r.
     rewrite V4. cbn [flat_list]. rewrite flat_span, app_nil_r.
     assert (Sin : inherit (style_of fs3') stk = style_of ((stk, k3) :: fs3')) by reflexivity.
     rewrite Sin. change (view fs3' pk3 ++ flat_list (style_of ((stk, k3) :: fs3')) k3) with (view ((stk, k3) :: fs3') pk3).
-    rewrite V3, V2. unfold pview at 1. cbn [rev items_of_text flat_map view flat_list]. rewrite !app_nil_r.
+    rewrite V3, V2. unfold pview at 1. cbn [rev]. change (unescape []) with (@nil Z). cbn [items_of_text flat_map view flat_list]. rewrite !app_nil_r.
     rewrite V1. rewrite items_tag. f_equal.
     cbn [style_of]. unfold stk. rewrite inherit_tag. rewrite (style_of_shape fs1 fs) by auto. reflexivity.
   - (* NFont *) intros c q body IH Ha Hw pend fs pk X A.
     rewrite angle_font in Ha. rewrite wf_font in Hw. apply andb_true_iff in Hw as [Wc Hw].
     rewrite print_font. repeat rewrite <- app_assoc.
     rewrite tok_font by auto.
-    destruct (handle_flush pend fs pk (TStart t_font [(t_color, Some (print_colspec c))] :: tok O [] (print_nodes body ++ close_font ++ X)) A)
+    destruct (handle_flush pend fs pk (TStart t_font [(t_color, Some (print_colspec c))] :: tok O [] (print_nodes body ++ close_font ++ X)))
       as (fs1 & pk1 & E1 & V1 & S1).
     rewrite E1. cbn [handle handle_start]. rewrite font_style_spec by auto.
     set (stk := mkSt false false false (Some (colspec_rgba c))).
-    destruct (IH Ha Hw [] ((stk, []) :: fs1) pk1 (close_font ++ X) eq_refl)
+    destruct (IH Ha Hw [] ((stk, []) :: fs1) pk1 (close_font ++ X) closed_nil)
       as (pend2 & fs2 & pk2 & E2 & A2 & S2 & V2).
     rewrite E2. rewrite tok_close_font.
-    destruct (handle_flush pend2 fs2 pk2 (TEnd :: tok O [] X) A2) as (fs3 & pk3 & E3 & V3 & S3).
+    destruct (handle_flush pend2 fs2 pk2 (TEnd :: tok O [] X)) as (fs3 & pk3 & E3 & V3 & S3).
     rewrite E3. cbn [handle].
     rewrite S2 in S3. cbn [map fst] in S3.
     destruct fs3 as [|[s3 k3] fs3']; [discriminate|]. cbn [map fst] in S3. injection S3 as S3a S3b. subst s3.
@@ -225,13 +248,13 @@ Proof.
     pose proof (view_push fs3' pk3 [ESpan stk k3]) as VP.
     destruct (push_kids fs3' pk3 [ESpan stk k3]) as [fs4 pk4|]; [|contradiction].
     destruct VP as (V4 & S4).
-    exists [], fs4, pk4. split; [reflexivity|]. split; [reflexivity|].
+    exists [], fs4, pk4. split; [reflexivity|]. split; [exact closed_nil|].
     split; [congruence|].
-    unfold pview at 1. cbn [rev items_of_text flat_map]. rewrite app_nil_r.
+    unfold pview at 1. cbn [rev]. change (unescape []) with (@nil Z). cbn [items_of_text flat_map]. rewrite app_nil_r.
     rewrite V4. cbn [flat_list]. rewrite flat_span, app_nil_r.
     assert (Sin : inherit (style_of fs3') stk = style_of ((stk, k3) :: fs3')) by reflexivity.
     rewrite Sin. change (view fs3' pk3 ++ flat_list (style_of ((stk, k3) :: fs3')) k3) with (view ((stk, k3) :: fs3') pk3).
-    rewrite V3, V2. unfold pview at 1. cbn [rev items_of_text flat_map view flat_list]. rewrite !app_nil_r.
+    rewrite V3, V2. unfold pview at 1. cbn [rev]. change (unescape []) with (@nil Z). cbn [items_of_text flat_map view flat_list]. rewrite !app_nil_r.
     rewrite V1. rewrite items_font. f_equal.
     cbn [style_of]. unfold stk. rewrite inherit_color. rewrite (style_of_shape fs1 fs) by auto. reflexivity.
   - intros k sy H. discriminate.
@@ -257,7 +280,7 @@ Proof.
     (fun p => forallb angle_node p = true -> forallb wf_node p = true -> lacks 123 (print_nodes p) /\ no_cr (print_nodes p))).
   - intros c _ W. cbn [wf_node] in W. unfold plain_char in W. unfold lacks, no_cr. cbn [print_node forallb].
     split; apply andb_true_iff; split; auto; lia.
-  - intros r H. discriminate.
+  - intros r _ W. cbn [wf_node] in W. destruct (cref_chars r W) as (_ & A & B & _). cbn [print_node]. auto.
   - intros _ _. split; reflexivity.
   - intros k sy body IH Ha Hw. rewrite angle_tag in Ha. apply andb_true_iff in Ha as [Hs Hb]. apply negb_true_iff in Hs.
     rewrite wf_tag in Hw. destruct (IH Hb Hw) as [A B]. rewrite print_tag.
@@ -276,6 +299,21 @@ Proof.
     destruct (IHx Ha1 Hw1), (IHl Ha2 Hw2). cbn [print_nodes]. split; [apply lacks_app|apply no_cr_app]; auto.
 Qed.
 
+(* what _TextParser makes of the printed form of an angle-syntax payload *)
+Lemma angle_parse p : forallb angle_node p = true -> forallb wf_node p = true ->
+  exists kids, parse_text true (print_nodes p) = Ok kids /\ flat_list st0 kids = items_list st0 p.
+Proof.
+  intros Ha Hw. unfold parse_text, tokenize.
+  destruct (forest_lemma p Ha Hw [] [] [] [] closed_nil) as (pend & fs & pk & E & L & S & V).
+  rewrite app_nil_r in E. rewrite E. cbn [tok].
+  destruct (handle_flush pend fs pk []) as (fs2 & pk2 & E2 & V2 & S2).
+  rewrite app_nil_r in E2. rewrite E2. cbn [handle].
+  rewrite S in S2. cbn [map] in S2. destruct fs2; [|discriminate].
+  eexists. split; [reflexivity|].
+  cbn [close_all]. rewrite app_nil_r. change (flat_list st0 pk2) with (view [] pk2).
+  rewrite V2, V. unfold pview. cbn [view flat_list rev]. change (unescape []) with (@nil Z). cbn [items_of_text flat_map style_of app]. reflexivity.
+Qed.
+
 (* C10_tags_scope at the level of one cue *)
 Theorem angle_payload_good p :
   forallb angle_node p = true -> forallb wf_node p = true ->
@@ -283,16 +321,7 @@ Theorem angle_payload_good p :
   payload_good p /\ no_cr (print_nodes p).
 Proof.
   intros Ha Hw Hb. destruct (angle_print p Ha Hw) as [A B]. split; auto.
-  unfold payload_good. rewrite rw_id by auto.
-  unfold parse_text, tokenize.
-  destruct (forest_lemma p Ha Hw [] [] [] [] eq_refl) as (pend & fs & pk & E & L & S & V).
-  rewrite app_nil_r in E. rewrite E. cbn [tok].
-  destruct (handle_flush pend fs pk [] L) as (fs2 & pk2 & E2 & V2 & S2).
-  rewrite app_nil_r in E2. rewrite E2. cbn [handle].
-  rewrite S in S2. cbn [map] in S2. destruct fs2; [|discriminate].
-  eexists. split; [reflexivity|].
-  cbn [close_all]. rewrite app_nil_r. change (flat_list st0 pk2) with (view [] pk2).
-  rewrite V2, V. unfold pview. cbn [view flat_list rev items_of_text flat_map style_of app]. reflexivity.
+  unfold payload_good. rewrite rw_id by auto. apply angle_parse; auto.
 Qed.
 
 Lemma angle_cues_ok f : wf_file f = true -> angle_file f = true -> trigger_backslash f = false ->
